@@ -67,7 +67,7 @@ def build_roots():
             add('r_search_steps_%s_%d' % (cn, st), 'pub fn r_search_steps_%s_%d(c: %s, p: %s) -> (f32, %s) { c.binary_search_point_by_steps(p, %d, 1.0) }' % (cn, st, CT, PT, PT, st),
                 opaque=['*::distance_squared', '*::distance', '*::magnitude', '*::magnitude_squared', '*%s*::evaluate' % cn], kind='search', c=cn, deg=deg, dim=dim, steps=st)
         for n in (0, 1, 2, 3, 7):
-            add('r_len_%s_%d' % (cn, n), 'pub fn r_len_%s_%d(c: %s) -> f32 { c.length_by_discretization(%d) }' % (cn, n, CT, n), kind='len', c=cn, deg=deg, dim=dim, n=n, max_paths=4)
+            add('r_len_%s_%d' % (cn, n), 'pub fn r_len_%s_%d(c: %s) -> f32 { c.length_by_discretization(%d) }' % (cn, n, CT, n), kind='len', c=cn, deg=deg, dim=dim, n=n, max_paths=300)
     return roots, meta
 
 
